@@ -39,7 +39,7 @@ typedef struct vh_opnd {
 
 typedef struct vh_ev {
   const char *op;
-  char params[4096];
+  char params[1 << 16];
   int plen;
   vh_opnd_t o[VH_MAXOP];
   int no;
@@ -134,6 +134,9 @@ typedef struct vh_args {
   int cases;  /* number of cases (0 = family default for the tier) */
 } vh_args_t;
 int vh_run_family(const vh_args_t *a);
-#define VH_SHARD(a, idx) ((a)->only >= 0 ? (idx) == (a)->only : (((idx) % (a)->nshards) == (a)->shard))
+/* cases are dealt to shards by a hash of the case index, so that `idx % k` choices inside a family are
+ * not correlated with the shard number */
+static inline unsigned long vh_mix(unsigned long x) { x ^= x >> 16; x *= 0x45d9f3bUL; x ^= x >> 13; x *= 0x2c1b3c6dUL; x ^= x >> 16; return x; }
+#define VH_SHARD(a, idx) ((a)->only >= 0 ? (idx) == (a)->only : ((long)(vh_mix((unsigned long)(idx)) % (unsigned long)(a)->nshards) == (a)->shard))
 
 #endif
